@@ -146,6 +146,16 @@ def project_models(draw: T.Any, profile: str = 'graph', max_targets: int = 10, o
                 (t['dep_headers'] if draw(st.integers(0, 2)) == 0 else t['gen_headers']).append(list(hh))
             if srcs and draw(st.booleans()):
                 t['gen_sources'].append(list(draw(st.sampled_from(srcs))))
+            # a generated .c compiled here and again in a library pulled in whole defines its symbol twice
+            # (ld: multiple definition): such a project does not build whatever meson does
+            byid = {x['id']: x for x in targets}
+            whole, todo = [], list(t['link_whole'])
+            while todo:
+                w = byid[todo.pop()]
+                whole.append(w)
+                todo += w.get('link_whole', [])
+            if any(gs in w.get('gen_sources', []) for w in whole for gs in t['gen_sources']):
+                t['link_whole'] = []
             t['generator'] = draw(st.integers(0, 3)) == 0
             cfgs = [x for x in targets if x['kind'] == 'cfg']
             t['cfg_headers'] = [draw(st.sampled_from(cfgs))['id']] if cfgs and draw(st.booleans()) else []
